@@ -516,7 +516,11 @@ def rule_r9(ctx) -> RuleResult:
                     rr.ok(dotted, label + " bounded below by a stack depth >= 1", {"loop": unparse(t)})
                     continue
                 raise AnalysisError("{}: cannot bound `{}` away from the bottom of the stack (inconclusive)".format(dotted, unparse(t)))
-            if not (isinstance(t, ast.Constant) and t.value) and not presence_with_root:
+            # `while <top>.kind not in K:` / `!= K`: the condition itself is the stop test of an iteration
+            _probe = P.TopKind(ctx, dotted)
+            kind_cond = _probe._kind_test(t, frozenset()) is not None or (
+                isinstance(t, ast.UnaryOp) and isinstance(t.op, ast.Not) and _probe._kind_test(t.operand, frozenset()) is not None)
+            if not (isinstance(t, ast.Constant) and t.value) and not presence_with_root and not kind_cond:
                 raise AnalysisError("{}: pop loop with an unrecognised condition `{}` (inconclusive)".format(dotted, unparse(t)))
             # for every kind on top: does one iteration pop, and does it certainly leave the loop?
             ranges = _int_ranges(ctx, fn)
@@ -524,7 +528,16 @@ def rule_r9(ctx) -> RuleResult:
             pops_kind, ends, may_end = set(), set(), set()
             for k in P.all_kinds(ctx):
                 w = P.TopKind(ctx, dotted, ranges)
-                o = w.run_block(lp.body, {(frozenset([k]), frozenset([]))})
+                entry_states = {(frozenset([k]), frozenset([]))}
+                if kind_cond:
+                    yes, no = w._branch(t, (frozenset([k]), frozenset([])))
+                    if no:
+                        may_end.add(k)
+                    if not yes:
+                        ends.add(k)
+                        continue
+                    entry_states = set(yes)
+                o = w.run_block(lp.body, entry_states)
                 if w.pops:
                     pops_kind.add(k)
                     if k == "ROOT" and w.lost_precision and w.lost_precision[0].end_lineno <= w.pops[0][0].lineno:
